@@ -500,7 +500,9 @@ def sim(cls: type) -> Sim:
             # Add to the sim-attributes list
             # Special case Python's conventional "ignored" name, the underscore.
             # Leave attributes named "_"'s `name` field set to `None`.
-            if key != "_":
+            # Name the attribute after its class-body key, if it is of a kind that has a name.
+            # (`Save`s and `Literal`s do not.)
+            if key != "_" and "name" in getattr(val, "__dataclass_fields__", {}):
                 val.name = key
             attrs.append(val)
         else:  # Add to the forget-list
